@@ -342,7 +342,7 @@ def same(a, b, whole_values=True):
             if len(_SAME) > 20000:
                 _SAME.clear()
             r = True
-            for _path, (x, y) in leaves([a, b], limit=6):
+            for _path, (x, y) in leaves([a, b], limit=10):
                 if not need(norm(settle(x), whole_values)).equals(need(norm(settle(y), whole_values))):
                     r = False
                     break
@@ -1058,10 +1058,11 @@ class CEval(AutoEvaluator):
             if isinstance(cv, tuple):
                 cv = Unknown("test on a tuple")
             return phi(cv, a, b)
-        if isinstance(node, ast.Subscript) and isinstance(node.value, ast.Name) and isinstance(self.env.get(node.value.id), DictValue) \
-                and not isinstance(node.slice, (ast.Slice, ast.Tuple)):
+        if isinstance(node, ast.Subscript) and not isinstance(node.slice, (ast.Slice, ast.Tuple)) and (
+                isinstance(node.value, ast.Name) and isinstance(self.env.get(node.value.id), DictValue)
+                or isinstance(node.value, ast.Dict) and isinstance(self._ev(node.value), DictValue)):
             # a literal lookup table indexed with a key that is known
-            table = self.env[node.value.id].d
+            table = (self.env[node.value.id] if isinstance(node.value, ast.Name) else self._ev(node.value)).d
             k = self._ev(node.slice)
             key = None
             if not is_unknown(k) and not isinstance(k, tuple) and k.is_const() and k.const_value().denominator == 1:
@@ -1070,7 +1071,7 @@ class CEval(AutoEvaluator):
                 key = ast.literal_eval(sym_name(k))
             if key is not None and key in table:
                 return table[key]
-            return Unknown(f"key of the literal table {node.value.id} at line {node.lineno}")
+            return Unknown(f"key of the literal table at line {node.lineno}")
         if isinstance(node, ast.Subscript):
             v = super()._ev(node)
             if not is_unknown(v) and not isinstance(v, tuple):
@@ -1961,6 +1962,15 @@ class Walker:
                     return F.sym("None")
                 if is_unknown(pos[0]) or isinstance(pos[0], tuple):
                     raise Stuck(f"absolute seek to an unknown position at line {node.lineno}")
+                if not is_unknown(whence) and not isinstance(whence, tuple) and whence.is_zero():
+                    # seek(tell() + n): the position just asked for plus n is a relative move by n
+                    fr = self.frame
+                    here = F.fn("tell", fr.id, fr.off["B"], fr.off["L"])
+                    rel = need(pos[0]) - here
+                    if not any(d[0] == "fn" and d[1] == "tell" for d in walk_atoms(rel)):
+                        self.emit("B", rel, node)
+                        self.events.append(("seek", rel, node))
+                        return F.sym("None")
                 self.frame.items.append(("abs", need(pos[0])))
                 self.frame.opaque()
                 self.events.append(("abs", pos[0], self.guard, node))
